@@ -10,7 +10,7 @@ TECH = 'Lean 4 theorems on a hand-written model + differential correspondence ch
 TECH_BR = ('Lean 4 theorems on a hand-written model + the anchored C++ functions translated to Lean from the working tree on every run '
            '(clang AST -> Lean definitions) with bridge theorems "translated = model" and headline theorems restated on the translated code '
            '+ differential correspondence check + property probe')
-BRIDGED = {'C01', 'C02', 'C03', 'C06', 'C10', 'C11', 'C12', 'C13', 'C14', 'C15', 'C16', 'C17', 'C18', 'C20'}
+BRIDGED = {'C01', 'C02', 'C03', 'C05', 'C06', 'C09', 'C10', 'C11', 'C12', 'C13', 'C14', 'C15', 'C16', 'C17', 'C18', 'C20'}
 NOTE = 'Trusted: Lean kernel + {propext, Classical.choice, Quot.sound} (audited per theorem on every run); the hand-written model is tied to the C++ by a seeded differential test, not by proof; '
 CLAIMED = {
     'C05': ('proof', TECH,
@@ -145,11 +145,13 @@ CLAIMED = {
             'a SharedVariable load is never torn, SharedOptionalVariable hands every stored value to at most one consumer in store order '
             '(overwritten values dropped), every getReport copy belongs to one evaluation, the online statistics return values of a serial '
             'order. The model of the code is the per-method lock/access event table regenerated from clang\'s AST (local aliases followed) '
-            'on every run; `table_disciplined`, `table_lin_shaped`, `checkup_getReport_shape` are re-checked on it by the kernel (decide). '
-            '28 theorems. Stage C runs the real classes with real threads under ThreadSanitizer with value-consistency checks.',
+            'on every run; `table_disciplined`, `table_lin_shaped`, `table_rate_monitoring_shaped`, `checkup_getReport_shape` are re-checked on it by the kernel '
+            '(decide). (3) RateMonitoring (a mutex plus atomics read outside it): writers = one critical section writing the observable atomic '
+            'word at most once, readers = one load => every schedule is explained by a serial order (writers in guard-acquisition order, each '
+            'reader at its load). 33 theorems. Stage C runs the real classes with real threads under ThreadSanitizer with value-consistency checks.',
             'Residue NOT carried by the theorems: the C++ memory model, std::mutex, compiler reordering, the scheduler - only exercised by '
             'the TSan probe; the data flow of the methods is quantified under sequential contracts (witness flows given), not extracted '
-            'from the source; RateMonitoring (atomics outside its mutex) is outside the reduction; tools/gen_locktable.py (AST -> event '
+            'from the source; for RateMonitoring SharedVariable<Duration> is read as one atomic word and std::atomic load/store as single sequentially consistent steps; tools/gen_locktable.py (AST -> event '
             'table) is a trusted translator that errs towards reporting. Category "other" so that the claim is not read as a proof of the C++.',
             'DESIGN.md section 6, C19'),
     'C10': ('proof', TECH,
@@ -245,6 +247,22 @@ def main():
         cat, tech, text, note, ref = CLAIMED[pid]
         if pid in BRIDGED and tech == TECH:
             tech = TECH_BR
+        # theorem counts quoted in the text are recounted from the property module (non-private `theorem`s)
+        pm = os.path.join(VERIF, 'lean', 'RomeaProofs', 'Properties', pid + '.lean')
+        if os.path.exists(pm):
+            import re as _re
+            n_thm = len(_re.findall(r'^theorem ', open(pm).read(), _re.M))
+            text = _re.sub(r'\d+( \+ \d+)? theorems in RomeaProofs/Properties/%s\.lean' % pid, '%d theorems in RomeaProofs/Properties/%s.lean' % (n_thm, pid), text)
+        # the number of audited theorems (property + bridge modules) is taken from the evidence of the last run of the check
+        ev = os.path.join(VERIF, 'evidence', pid + '.json')
+        if os.path.exists(ev):
+            try:
+                cov = json.load(open(ev)).get('coverage', {})
+                if cov.get('obligations'):
+                    text += (' Audited theorems on the last run (property, lemma-free bridge and restated-headline modules; axioms within '
+                             '{propext, Classical.choice, Quot.sound}): %d, all discharged.' % cov['obligations'])
+            except Exception:
+                pass
         checks.append({
             'property_id': pid,
             'quick_cmd': 'python3 tools/check.py %s --tier quick' % pid,
